@@ -424,13 +424,20 @@ def main(tier):
                 chk.broken_q('the GSL driver stub\'s contract does not hold for the real driver (%s, %s): %r' % (nm, 'adaptive' if adaptive else 'fixed', o['res']))
     chk.cov['gsl_stub_contract_vs_real_driver'] = contract
     seen = set()
+    nrep, t_replay = 0, time.time()
     for c in chk.candidates:
         k0 = c['key'].split(':d=')[0] + c['key'].split('mask=')[-1]
         if c['key'] in seen:
             continue
         seen.add(c['key'])
+        # replay budget: once three counterexamples have reproduced natively and the replays have used more than 300 s (a change under which the real
+        # integration never converges costs a full time-out per candidate), the remaining candidates are counted, not replayed and not reported
+        if nrep >= 3 and time.time() - t_replay > 300:
+            chk.cov['candidates_not_replayed_after_budget'] = chk.cov.get('candidates_not_replayed_after_budget', 0) + 1
+            continue
         ok, info = replay(chk, c)
         if ok:
+            nrep += 1
             chk.report(c['key'], '%s; native: %s' % (c['what'], info), c)
         else:
             chk.broken_q('counterexample for %s did not reproduce natively (%s): %s' % (c['key'], info, c['what'][:200]))
